@@ -205,7 +205,11 @@ class ItemAttributeList(List[T]):
         and its arguments necessary to recreate the object.
 
         """
-        return self.__class__, (list(self),)
+        # the items are handed over as "list items", i.e., they are
+        # appended after the (empty) list has been created. This way,
+        # items which refer to the list that contains them can be
+        # handled.
+        return self.__class__, (), None, iter(self)
 
 
 class NamedItemList(ItemAttributeList[T]):
